@@ -8,6 +8,7 @@ import (
 	"encoding/json"
 	"flag"
 	"fmt"
+	"math/rand"
 	"os"
 	"os/exec"
 	"path/filepath"
@@ -22,13 +23,13 @@ import (
 )
 
 type HarnessCfg struct {
-	Name     string         `json:"name"`
-	Quick    map[string]int `json:"quick"`
-	Thorough map[string]int `json:"thorough"`
-	Bound    string         `json:"bound"` // human-readable statement of the bound
-	Solver   string         `json:"solver,omitempty"`
-	CrossCheck bool         `json:"crosscheck,omitempty"` // thorough tier: repeat under a second solver and compare
-	Instances []map[string]int `json:"instances,omitempty"` // run once per instance (params merged)
+	Name           string           `json:"name"`
+	Quick          map[string]int   `json:"quick"`
+	Thorough       map[string]int   `json:"thorough"`
+	Bound          string           `json:"bound"` // human-readable statement of the bound
+	Solver         string           `json:"solver,omitempty"`
+	CrossCheck     bool             `json:"crosscheck,omitempty"` // thorough tier: repeat under a second solver and compare
+	Instances      []map[string]int `json:"instances,omitempty"`  // run once per instance (params merged)
 	QuickInstances []map[string]int `json:"quick_instances,omitempty"`
 }
 
@@ -176,6 +177,32 @@ func (r *replayer) replay(harness string, tapePath string) string {
 		s = s[len(s)-400:]
 	}
 	return "REPLAY no-result " + strings.ReplaceAll(s, "\n", " | ")
+}
+
+// perturbTape returns a copy of the tape in which some data draws (bytes, scalars, crypto/rand
+// output) carry other values; structural draws (choices, lengths, booleans) are kept.
+func perturbTape(t []Draw, rng *rand.Rand) []Draw {
+	out := make([]Draw, len(t))
+	for i, d := range t {
+		nd := d
+		nd.Val = append([]uint64{}, d.Val...)
+		switch d.Kind {
+		case "bytes", "rand":
+			if rng.Intn(100) < 25 {
+				for j := range nd.Val {
+					if rng.Intn(100) < 50 {
+						nd.Val[j] = uint64(rng.Intn(256))
+					}
+				}
+			}
+		case "u32", "u64", "u16":
+			if rng.Intn(100) < 10 && len(nd.Val) == 1 {
+				nd.Val[0] ^= uint64(rng.Intn(1 << 16))
+			}
+		}
+		out[i] = nd
+	}
+	return out
 }
 
 func clip(s string, n int) string {
@@ -570,6 +597,53 @@ func cmdCheck(args []string) {
 						fmt.Printf("  counterexample: %s %s %s -> %s\n", v.Kind, v.Label, v.Detail, out)
 					}
 					break
+				}
+				if !confirmedOne && lastV.Kind == "assert" {
+					// The solver's model fixes values that natively come out of real HMAC / AES
+					// computations (uninterpreted in the encoding), so its witness need not be a
+					// native one. Search near it: replay variants of the candidates whose data
+					// draws are perturbed, and accept only a native failure of the very same
+					// assertion. This confirms (or fails to confirm) a solver verdict; it
+					// never decides a property by itself.
+					rng := rand.New(rand.NewSource(int64(seed) + int64(nRep)))
+					cands := bySig[sig]
+					for try := 0; try < 120 && !confirmedOne; try++ {
+						v := cands[try%len(cands)]
+						tape := perturbTape(v.Tape, rng)
+						nRep++
+						tp := filepath.Join(replayDir, fmt.Sprintf("%s-%s-%d.json", *prop, hc.Name, nRep))
+						writeTape(tp, hc.Name, tier, params, tape)
+						out := rp.replay(hc.Name, tp)
+						if out != "REPLAY confirmed-assert "+v.Label {
+							os.Remove(tp)
+							continue
+						}
+						confirmedOne = true
+						validated++
+						v.Tape = tape
+						matched := false
+						for ki, k := range known.Findings {
+							if k.Property != *prop {
+								continue
+							}
+							if re, err := regexp.Compile(k.Match); err == nil && re.MatchString(sig) {
+								matched = true
+								if !knownHits[ki] {
+									knownHits[ki] = true
+									fmt.Printf("KNOWN-FINDING: property=%s %s\n", *prop, k.What)
+								}
+								break
+							}
+						}
+						samples = append(samples, map[string]interface{}{"harness": hc.Name, "kind": "counterexample replayed natively (variant of the solver's model found by perturbing its data draws)", "signature": sig, "detail": v.Detail, "native": out, "tape": tape, "known_finding": matched})
+						if matched {
+							os.Remove(tp)
+						} else {
+							violations++
+							violLines = append(violLines, fmt.Sprintf("VIOLATION property=%s replay=%s", *prop, tp))
+							fmt.Printf("  counterexample: %s %s %s -> %s (variant %d of the solver's model)\n", v.Kind, v.Label, v.Detail, out, try+1)
+						}
+					}
 				}
 				if !confirmedOne {
 					msg := fmt.Sprintf("%s: UNCONFIRMED counterexample (%s %s; %d candidates): native run says %q", hc.Name, lastV.Kind, lastV.Label, len(bySig[sig]), lastOut)
